@@ -994,11 +994,6 @@ def run_stress(spec, acc):
     if starved:
         acc.mark_inconclusive(f'host starved: oversleep={h.watch.max_oversleep:.2f}s '
                               f'step={h.watch.max_step:.3f}s')
-    if h.watch.overloaded:
-        # more than two runnable processes per core: lateness is the host's, the
-        # other monitors (order, once-only, lock, times asked for) still decide
-        acc.count('stress_shards_on_an_overloaded_host')
-        starved = True
     # tempo clocks: lateness unknown in seconds; "due" approximated (see _due_phys)
     inst = analyze(h, acc, LATE_STRESS, end_phys, starved=starved, label=cfg['name'])
     for e in h.errors[:5]:
@@ -1255,7 +1250,7 @@ def park_case(h, inj, ck, who, code, line, racing, state, acc, tempo_n, nth=1):
     waited = time.time() - t0
     missing = [r for r in h.all_recs() if not r['decoy'] and not r['error']
                and r['nwakes'] < expected_wakes(r['plan'])]
-    starved = h.watch.max_oversleep > 0.5 or h.watch.max_step > 0.05 or h.watch.overloaded
+    starved = h.watch.max_oversleep > 0.5 or h.watch.max_step > 0.05
     kicked = None
     if missing and not starved:
         # does an unrelated later scheduling wake it up?  (diagnostic detail)
@@ -1461,7 +1456,7 @@ def run_clear(spec, acc):
                         {'round': rnd, 'task': _rec_repr(r), 'n_pending': len(before)})
                     break
             analyze(h, acc, LATE_PARK, main.elapsed_time(), cancelled=cancelled,
-                    starved=h.watch.max_oversleep > 0.5 or h.watch.overloaded, label='clear')
+                    starved=h.watch.max_oversleep > 0.5, label='clear')
             acc.count('clear_cases')
             acc.count('cleared_tasks', len(before))
             acc.case(h64((ck, n, rnd)), nontrivial=True)
@@ -1593,7 +1588,7 @@ def inf_return_case(h, acc, clock, ck, rng, rnd):
     time.sleep(0.6 if ck == 'TempoClock' else 0.45)
     acc.count('inf_return_cases')
     acc.case(h64(('inf-return', ck, kind, len(plan))), nontrivial=True)
-    starved = h.watch.max_oversleep > 0.25 or h.watch.max_step > 0.05 or h.watch.overloaded
+    starved = h.watch.max_oversleep > 0.25 or h.watch.max_step > 0.05
     if a['nwakes'] > len(plan):
         acc.violation(f'C08/woken-too-often/{ck}/after-returning-inf',
                       {'task': _rec_repr(a), 'wakes': a['nwakes']})
@@ -1904,7 +1899,7 @@ def tempo_hammer_case(h, acc, rng, vid):
     stop[0] = True
     th.join(2)
     time.sleep(3.0)     # slowest tempo 2: 4.7 beats / 2 = 2.4 s in total
-    starved = h.watch.max_oversleep > 0.5 or h.watch.max_step > 0.05 or h.watch.overloaded
+    starved = h.watch.max_oversleep > 0.5 or h.watch.max_step > 0.05
     analyze(h, acc, LATE_PARK, h.main.elapsed_time(), starved=starved, label='tempo-hammer')
     acc.count('tempo_hammer_cases')
     acc.count('tempo_changes_from_plain_thread', changes[0])
